@@ -195,15 +195,19 @@ def preproc_case(r):
 
 
 def progress_ok(trace):
-    pos = []
+    """every parser instance (second number of a parse_iter line) must show a strictly increasing progress measure"""
+    by = {}
+    n = 0
     for l in trace.split("\n"):
         f = l.split()
         if len(f) == 3 and f[0] == "parse_iter":
-            pos.append((int(f[1]), int(f[2])))
-    for a, b in zip(pos, pos[1:]):
-        if not a < b:
-            return False, (a, b), len(pos)
-    return True, None, len(pos)
+            by.setdefault(f[2], []).append(int(f[1]))
+            n += 1
+    for pid, pos in by.items():
+        for a, b in zip(pos, pos[1:]):
+            if not a < b:
+                return False, ((a, pid), (b, pid)), n
+    return True, None, n
 
 
 def main(a):
@@ -225,7 +229,7 @@ def main(a):
     env = {"CB_VERIF_PARSE_ONLY": "1", "CB_VERIF_TRACE": "trace.txt",
            "ASAN_OPTIONS": "detect_leaks=0:abort_on_error=0:allocator_may_return_null=1", "UBSAN_OPTIONS": "print_stacktrace=0"}
 
-    def judge(kind, name, text, o, parse_only=True):
+    def judge(kind, name, text, o, parse_only=True, files=None, args=()):
         """o = (stdout, exit class, stderr tail[, trace])"""
         problems = []
         if o[1] not in ("ok", "error"):
@@ -253,15 +257,16 @@ def main(a):
             return
         reported[0] += 1
         v.violation("%s input %s: %s" % (kind, name, "; ".join(problems)),
-                    {"program": text, "parse_only": parse_only, "kind": kind, "impl_exit_class": o[1], "impl_stderr": (o[2] or "")[-600:]})
+                    {"program": text, "parse_only": parse_only, "kind": kind, "files": files or {}, "args": list(args),
+                     "impl_exit_class": o[1], "impl_stderr": (o[2] or "")[-600:]})
 
     if a.replay:
         rp = json.load(open(a.replay))
         e = dict(env)
         if not rp.get("parse_only", True):
             e.pop("CB_VERIF_PARSE_ONLY")
-        o = common.run_programs(exe, [rp["program"]], timeout=20, env=e, collect="trace.txt")[0]
-        judge(rp.get("kind", "replay"), "replay", rp["program"], o, rp.get("parse_only", True))
+        o = common.run_programs(exe, [(rp["program"], tuple(rp.get("args", [])), rp.get("files", {}))], timeout=20, env=e, collect="trace.txt")[0]
+        judge(rp.get("kind", "replay"), "replay", rp["program"], o, rp.get("parse_only", True), files=rp.get("files"), args=rp.get("args", ()))
         return v.finish(level="proof")
 
     cor = corpus(8192)
@@ -280,11 +285,29 @@ def main(a):
         inputs.append((k, k, p))
     for i in range(150 if quick else 6000):
         inputs.append(("preproc", "pp%d" % i, preproc_case(r)))
+    # lexers that are NOT fed by the preprocessor: the nested parser of every {...} segment of an interpolated string, the
+    # parser of an imported module, and --no-preprocess: inputs whose last token is cut off / a comment at end of input
+    TAILS = ["// c", "/* c", "/* c *", "\"s", "'", "'a", "a +", "a.", "a ->", "(", "[1", "f(", "a ? b", "a ? b :", "x <", "Box<", "1e", "0x",
+             "\\", "@", "#", "a // c", "a /* c */", "a /* c", "}", "{", "{{", "}}", "", " ", "a, b", "a;", "a = ", "\"q\"", "a:x", "a:", ":", "a:05", "a:.", "a:.2", "$"]
+    for i, tail in enumerate(TAILS):
+        inputs.append(("interp-tail", "it%d" % i, "int main() {\n    int a = 1;\n    int b = 2;\n    println(\"v = {%s}\");\n    return 0;\n}\n" % tail))
+        inputs.append(("interp-tail", "iu%d" % i, "int main() {\n    int a = 1;\n    println(\"v = {%s\");\n    return 0;\n}\n" % tail))
+    MODTAILS = ["// c", "/* c", "\"s", "'", "export int g(", "export struct S {", "export", "import", "import mt", "}", "#ifdef X", "export int g() { return 1; } //x",
+                "export int g() { return 1; }", "\\", "\x00", "export enum E { A,", "export int g() { return 1; }\n\n\n// last"]
+    mod_inputs = []
+    for i, tail in enumerate(MODTAILS):
+        mod_inputs.append(("module-tail", "mt%d" % i, ("import mt;\nint main() {\n    println(f(1));\n    return 0;\n}\n", (),
+                                                         {"mt.cb": "export int f(int v) {\n    return v + 1;\n}\n" + tail})))
     for i in range(40 if quick else 600):
         ln = r.range(1, 600)
         inputs.append(("random-bytes", "rb%d" % i, bytes(r.below(256) for _ in range(ln)).decode("latin-1")))
         inputs.append(("random-ascii", "ra%d" % i, "".join(chr(r.range(32, 126)) if r.chance(92) else "\n" for _ in range(ln))))
+    inputs += mod_inputs
     outs = common.run_programs(exe, [t for _, _, t in inputs], timeout=20, env=env, collect="trace.txt")
+    # the same inputs with --no-preprocess (the lexer then sees the file as it is, e.g. without a final newline)
+    npp = [(k, n, t) for (k, n, t) in inputs if isinstance(t, str) and (k in ("interp-tail", "random-ascii", "random-bytes") or k.startswith("mutant-truncate") or hash(n) % 7 == 0)]
+    npp += [("nopp-tail", "np%d" % i, "int main() {\n    return 0;\n}\n" + tail) for i, tail in enumerate(TAILS)]
+    outs_npp = common.run_programs(exe, [(t, ("--no-preprocess",), {}) for _, _, t in npp], timeout=20, env=env, collect="trace.txt")
     dist = {}
     nontrivial = set()
     rejected = 0
@@ -292,11 +315,18 @@ def main(a):
     for (kind, name, text), o in zip(inputs, outs):
         base = kind.rsplit("-", 1)[0] if kind.startswith(("deep-", "long-", "wide-", "double-")) else kind
         dist[base] = dist.get(base, 0) + 1
-        nontrivial.add((base, hash(text) % 1000003))
+        nontrivial.add((base, hash(str(text)) % 1000003))
         rejected += 1 if o[1] == "error" else 0
         if len(o) > 3:
             iters += progress_ok(o[3])[2]
-        judge(kind, name, text, o)
+        if isinstance(text, str):
+            judge(kind, name, text, o)
+        else:
+            judge(kind, name, text[0], o, files=text[2])
+    for (kind, name, text), o in zip(npp, outs_npp):
+        dist["no-preprocess"] = dist.get("no-preprocess", 0) + 1
+        nontrivial.add(("npp", hash(text) % 1000003))
+        judge("nopp:" + kind, name, text, o, args=("--no-preprocess",))
     # executing well-formed pointer-free programs under the sanitizers
     ne = 120 if quick else 4000
     gates = all_gates()
@@ -322,7 +352,7 @@ def main(a):
         if f["id"] in cell_known:
             v.known_finding(f["what"] + " [%d inputs]" % cell_known[f["id"]])
     v.coverage.update({
-        "evaluations": len(inputs) + len(progs) + len(en), "distinct_nontrivial": len(nontrivial), "distribution": dist,
+        "evaluations": len(inputs) + len(npp) + len(progs) + len(en), "distinct_nontrivial": len(nontrivial), "distribution": dist,
         "rejected_inputs": rejected, "parse_loop_iterations_observed": iters,
         "rule": "parse-only runs of the ASan+UBSan build: repository .cb files <= 8 KiB (quick: a sample of 220; thorough: all), "
                 "%d token-level mutants of each (delete, duplicate, swap, truncate at a token boundary, byte flips, structural "
@@ -330,7 +360,8 @@ def main(a):
                 "indexes, calls, ternaries, if/else chains, generic / pointer / array / const / function-pointer TYPE nesting in "
                 "declarations, parameters, return types and members, casts, member chains, interpolation, macro chains, wide and "
                 "self-referential and doubling macros) up to 8 KiB, random sequences of preprocessor directives with deliberately "
-                "unbalanced conditionals, "
+                "unbalanced conditionals, interpolation segments / imported modules / --no-preprocess runs whose text ends in a "
+                "cut-off token or a comment at end of input (the lexers that are not fed by the preprocessor), "
                 "random bytes / ASCII; full execution of generated pointer-free core programs and of %d well-formed programs with "
                 "long operator chains / statement lists / argument lists / array literals and deep (accepted) nesting of parens, "
                 "unary operators, calls, indexes, ternaries, blocks, if / else / while and recursion under the sanitizers. Verdict per "
